@@ -36,9 +36,9 @@ def flagset(n):
 
 
 def make_tx(mode):
-    # mode bit 0: mutable; (mode >> 1) % 3: input index 0 / 1 / out of range; mode >= 6: three inputs,
+    # mode bit 0: mutable; (mode >> 1) % 4: input index 0 / 1 / len(vin) / far out of range; mode >= 8: three inputs,
     # the others still unsigned (empty scriptSig) with non-zero sequence numbers
-    if mode >= 6:
+    if mode >= 8:
         vin = [CTxIn(COutPoint(bytes([7 + k]) * 32, k), CScript(b''), 0xfffffffe - k) for k in range(3)]
     else:
         vin = [CTxIn(COutPoint(bytes([7 + k]) * 32, k), CScript(b'\x51'), 0xfffffffe) for k in range(2)]
@@ -57,7 +57,7 @@ def run(op, a):
     if op == 1:
         ssig, spk, f, mode = a[0], a[1], a[2], a[3]
         tx = make_tx(mode)
-        idx = ([0, 2, 5] if mode >= 6 else [0, 1, 5])[(mode >> 1) % 3]      # mode >= 6: 3 inputs, 2 outputs: index 2 has no matching output
+        idx = ([0, 2, 3, 5] if mode >= 8 else [0, 1, 2, 5])[(mode >> 1) % 4]    # mode >= 8: 3 inputs, 2 outputs (index 2 has no matching output); 2 resp. 3 = len(vin) exactly; 5 = far outside
         s1, s2 = CScript(ssig), CScript(spk)
         before = snapshot(tx, s1, s2)
         es = []
